@@ -57,6 +57,11 @@ func advGen(prop string, forged []string) func(rng *core.Rng, tier string) *harn
 			}
 			p.Ops = append(p.Ops, harness.Op{At: int64(rng.Dur(14*time.Second, dur) / time.Microsecond), Kind: "adv", S: kind + "#" + fmt.Sprint(i), N: rng.IntN(9), M: rng.IntN(9), B: int64(rng.IntN(3))})
 		}
+		if prop == "C02" {
+			for i := 0; i < 1+rng.IntN(3); i++ {
+				p.Ops = append(p.Ops, harness.Op{At: int64(rng.Dur(14*time.Second, dur-8*time.Second) / time.Microsecond), Kind: "lockforge", S: fmt.Sprint("valid#lf", i), N: rng.IntN(9)})
+			}
+		}
 		networkFaults(rng, p, 12*time.Second, dur, rng.IntN(3))
 		for i := 0; i < rng.IntN(3); i++ {
 			p.Ops = append(p.Ops, harness.Op{At: int64(rng.Dur(14*time.Second, dur) / time.Microsecond), Kind: "crash", N: rng.IntN(9), A: int64(300 + rng.IntN(4000))})
@@ -66,6 +71,25 @@ func advGen(prop string, forged []string) func(rng *core.Rng, tier string) *harn
 		}
 		sortOps(p)
 		return p
+	}
+}
+
+// lockForgeMon stops a node between the input locks and the body write of one transaction.
+type lockForgeMon struct {
+	cluster.BaseMonitor
+	c     *cluster.Cluster
+	node  *cluster.SNode
+	hash  crypto.Hash
+	fired bool
+}
+
+func (m *lockForgeMon) BeforeStore(n *cluster.SNode, call *cluster.StoreCall) {
+	if m.fired || n != m.node || call.Name != "WriteTransaction" {
+		return
+	}
+	if tx := call.Args[0].(*common.VersionedTransaction); tx.PayloadHash() == m.hash {
+		m.fired = true
+		m.c.CrashNow(n, "lockforge.between_lock_and_body_write")
 	}
 }
 
@@ -144,6 +168,72 @@ func advExec(prop string) func(p *harness.Plan) *harness.Outcome {
 					validHashes = append(validHashes, h)
 				}
 			}
+		}
+		// "lockforge": an honest transfer is handed to a node which is stopped right after it has locked
+		// the inputs for it and before it has stored the body; once the node is back, a copy of the same
+		// payload with signatures of a stranger arrives as an unauthenticated peer bundle (same hash, so it
+		// meets the locks the genuine transaction left behind)
+		r.extra["lockforge"] = func(op harness.Op, idx int) {
+			a := advBuild(r, rng, "valid", op.S)
+			if a == nil {
+				r.out.Probes["adv_skipped_no_coin"]++
+				return
+			}
+			h := a.tx.PayloadHash()
+			mon.byHash[h] = a
+			for _, src := range a.source {
+				src.Spent = true
+			}
+			v := r.node(op.N)
+			if !v.Alive {
+				return
+			}
+			lf := &lockForgeMon{c: c, node: v, hash: h}
+			c.AddMonitor(lf)
+			if _, err := c.Submit(v, a.tx); err != nil {
+				return
+			}
+			mon.admit(v, a.tx, "accepted by the RPC admission path")
+			validSent++
+			tries := 0
+			var later func()
+			later = func() {
+				tries++
+				if c.Halt || tries > 60 {
+					return
+				}
+				if !lf.fired || !v.Alive {
+					c.Q.After(250*time.Millisecond, "lockforge.wait", later)
+					return
+				}
+				signed := &common.SignedTransaction{Transaction: a.tx.Transaction}
+				for _, src := range a.source {
+					if err := signUTXOLoose(signed, src.UTXO, []*common.Address{c.User(9)}); err != nil {
+						return
+					}
+				}
+				forged := signed.AsVersioned()
+				if forged.PayloadHash() != h {
+					return
+				}
+				r.out.Faults["client.forged_copy_of_locked_transaction"]++
+				forgedSent++
+				for k := 0; k < 3; k++ {
+					c.Inject(c.External(), v, buildTxBundle([]*common.VersionedTransaction{forged}, false), time.Duration(100+k*700)*time.Millisecond)
+				}
+				// the client of the genuine transfer retries elsewhere, as it would after a node failure
+				c.Q.After(4*time.Second, "lockforge.retry", func() {
+					if o := r.node(op.N + 1); o.Alive {
+						if _, err := c.Submit(o, a.tx); err == nil {
+							r.accepted = append(r.accepted, h)
+							validHashes = append(validHashes, h)
+							r.coins[2000+idx] = a.coins
+							r.txOf[2000+idx] = a.tx
+						}
+					}
+				})
+			}
+			c.Q.After(300*time.Millisecond, "lockforge.wait", later)
 		}
 		r.schedule()
 		c.Run(time.Duration(p.P("dur_ms", 40000)) * time.Millisecond)
